@@ -357,3 +357,10 @@ package sm2
 //@   (requires key (wfpub a))
 //@   (requires range (and (<= 0 (bigval (field a X))) (< (bigval (field a X)) 115792089237316195423570985008687907853269984665640564039457584007913129639936)))
 //@   (ensures len (= (len result) 33)))
+//@ (func "(*PublicKey).Verify" sweep
+//@   (requires init (and (sm2init) (consts)))
+//@   (requires key (wfpub pub)))
+//@ (func DecryptAsn1 sweep
+//@   (requires key (wfpriv pub))
+//@   (requires field256 (<= (ec.p (tag (field pub PublicKey Curve))) 115792089237316195423570985008687907853269984665640564039457584007913129639936)))
+//@ (func CipherUnmarshal sweep)
